@@ -8,7 +8,7 @@ from typestate import LockTS, derive_preconditions, LOCK
 from rules import common
 from rules.C06 import backward_direct, trace_moves
 from rules.C07 import dedupe_rule
-from rules.C08 import token_preconditions, token_read_guard, classify_waits
+from rules.C08 import token_preconditions, token_read_guard, classify_waits, surplus_released
 
 EXPLANATION = (
     "Static rules that each exclude one way to abort on an internal assertion or to wait forever: typestate of every "
@@ -106,6 +106,7 @@ def run(ctx):
     # ---- R9.2
     token_preconditions(ctx, "R9.2", include_release_mine=True)
     token_read_guard(ctx, "R9.2")
+    surplus_released(ctx, "R9.2")
 
     # ---- R9.3
     waits = ba.calls(r"state::Lock::wait_lock")
